@@ -179,6 +179,9 @@ def check(repo, rep, tier):
     r_templates_constant(repo, rep, 'R8.6', repo.py_files('depccg/printer'),
                          'a word that contains { or } (the escaped spelling of a brace is -LCB- / -RCB-, but read_auto keeps a raw one) makes the line raise or come out '
                          'with a field replaced, so the line that is printed is not the one the encoder produced')
+    from ..lints import r_module_state
+    r_module_state(repo, rep, 'R8.6', ['depccg/printer/auto.py', 'depccg/printer/conll.py', 'depccg/tools/reader.py', 'depccg/utils.py'],
+                   'the line written for a tree (or the tree read from a line) then depends on what was written or read before it in the same process')
     rep.rule('R8.7', 'the reader labels every binary node by running the rules of the active grammar on its children (guess_combinator_by_triplet): those run on the '
              'categories of either language -- a member read on a feature exists on both feature classes or is guarded')
     from .c14 import r_feature_methods
